@@ -59,6 +59,10 @@ func TestVerif_C09_racestress(t *testing.T) {
 			human += " UNEXPECTED: " + strings.Join(oc.unexpected, "; ")
 		}
 		s.Case(oc.line, "ok", ok, "", len(rd.callers) >= 2 && oc.events > 20, human)
+		if oc.knownH2Unusable > 0 {
+			s.Observe(fmt.Sprintf("round-%d-h2-unusable", i), false, c09ClassH2Unusable, false, human,
+				fmt.Sprintf("%d callers got \"http2: client conn not usable\" under DisableKeepAlives", oc.knownH2Unusable))
+		}
 	}
 	s.Finish()
 }
